@@ -25,4 +25,6 @@ SPEC = {
 
 
 def run(ctx):
+    # (quick tier: the first 64 solved cases - the fixed families come first - go through the Coq model; the thorough tier takes all)
+    SPEC["stages"] = [("F", solcore.stageF, P.stageF_v, 2, 64 if ctx.tier == "quick" else None)]
     core.run(ctx, SPEC)
